@@ -1,13 +1,25 @@
 (* Properties/C03.v — Every eligible target ends up scraped by exactly one shard. *)
 From KV Require Import Base.Util Base.AMap Base.Sched Gen.Consts Model.Coordinator Model.CoordCheck Model.Sidecar Model.World
-                       Proofs.CoordBasics Proofs.CoordC01 Proofs.SidecarProofs Proofs.WorldProofs Proofs.CoordStable Proofs.WorldNoGap Proofs.CoordHandover Proofs.CoordRipe.
+                       Proofs.CoordBasics Proofs.CoordC01 Proofs.SidecarProofs Proofs.WorldProofs Proofs.CoordStable Proofs.WorldNoGap Proofs.CoordHandover Proofs.CoordRipe Proofs.CoordLive Proofs.WorldConverge.
 Local Open Scope list_scope.
 Local Open Scope Z_scope.
 
-(* STATUS.  The full statement - from every well-formed world, under a fair fault-free schedule, a converged world is
-   reached within a bound and further cycles change nothing - is a liveness property of the composition of the cycle,
-   the sidecars, the scrapes and the StatefulSet (Model/World.v).  It is NOT proved as one theorem here.  What is proved,
-   for every input and every iteration order, is each step of the argument:
+(* STATUS.  The statement - from every well-formed world, under a fair fault-free schedule, a converged world is reached
+   within a bound and further cycles change nothing - is a liveness property of the composition of the cycle, the sidecars,
+   the scrapes and the StatefulSet (Model/World.v).
+   PROVED AS ONE THEOREM in the regime without relief and without consolidation (alleviation disabled, idle time-out 0,
+   0 < max-process, min-shard <= max-shard): C03_converges_in_regime - from EVERY well-formed world (duplicates, pending
+   transfers with or without partner, undiscovered leftovers, any counters), under EVERY iteration order in every cycle,
+   after max(2, max-shard - shards + 1) calm rounds (fault-free cycle, three scrapes of everything, a tick) the world is
+   clean - every held target is discovered, in normal state, on exactly one shard - and every eligible discovered target
+   is held, or the replica has reached max-shard ("enough allowed shards" of the statement is exactly this alternative);
+   C03_converged_stays - a clean world in which every discovered target is held or cannot be placed keeps its placement and
+   its number of shards in every further round.  Steps: C03_clean_from_the_second_round, C03_placed_or_at_cap,
+   C03_cycle_places_or_grows, C03_clean_held_world_is_settled; sizes stay non-negative (C03_sizes_stay_counts).
+   OUTSIDE that regime (relief on, idle time-out on) the bound depends on the sizes of the workload (relief keeps starting
+   moves while a shard is above its threshold, consolidation while one is idle); there the steps below are proved for every
+   input and every iteration order, and their composition is validated in lock step against the real closed loop (engine
+   `loop`), whose end states are checked for convergence and stability:
      (1) nothing is ever lost on the way: a discovered target that some sidecar holds is held after every step of every
          history, with or without faults (C05_no_gap_history / C06_no_target_lost_by_faults), and every sidecar stays well
          formed (C06_invariant_kept_by_faulty_cycle);
@@ -17,16 +29,10 @@ Local Open Scope Z_scope.
          target on exactly one in-sync shard in normal state - duplicates on any number of shards, pending transfers with
          or without partner (C03_one_normal_copy_after_cleaning, C05_handover_completes and the C06 theorems);
      (4) an eligible target that is held nowhere is placed, or the replica grows (C03_place_or_grow, below); with no relief to
-         do, the plan after cleaning and assignment is clean: every entry a discovered target in normal state, no target
-         on two shards (C03_ripe_cycle_gives_clean_plan);
+         do, the plan after cleaning and assignment is clean (C03_ripe_cycle_gives_clean_plan), and the sidecars follow the
+         plan exactly (C03_world_follows_plan, C03_ripe_world_becomes_clean);
      (5) a settled placement is a fixpoint of the cycle and of the closed loop (C03_settled_is_fixpoint,
-         C03_settled_world_unchanged).
-   Composed so far: (2)+(3)+(4) in the closed loop - a ripe world with no relief to do and the idle time-out off is a clean
-   world after one fault-free cycle (C03_ripe_world_becomes_clean), the sidecars following the plan exactly
-   (C03_world_follows_plan).  Not proved is the remaining glue that turns this into a bound from EVERY world: that relief
-   (shards above a threshold) and consolidation (idle time-out) stop starting new moves - which depends on the sizes of
-   the workload, the "enough allowed shards" of the statement - and the arithmetic of room after a scale-up.  That composition is validated in lock step against the
-   real closed loop (engine `loop`), whose end states are checked for convergence and stability. *)
+         C03_settled_world_unchanged). *)
 
 (* "Whenever all shards are in sync and an eligible unscraped target cannot be placed, the requested shard count
    exceeds the current one": one cycle of the model, any schedule *)
@@ -278,4 +284,89 @@ Proof.
     + unfold reported, shard_at in Hf. rewrite nth_overflow in Hf by (cbn; lia). cbn in Hf. discriminate.
   - split; [|vm_compute; reflexivity].
     right. intros [|[|[|k]]] Hk; vm_compute in Hk; try lia; (split; [vm_compute; reflexivity|now left]).
+Qed.
+
+(* ================================================================== bounded convergence, as one theorem, in the regime
+   without relief and consolidation.  calm_round_with o tru w sch = fault-free cycle under schedule sch, every shard scrapes
+   every target it holds three times, 400 s pass.  winv: sidecars well formed and their store in step, at most max-shard
+   shards; wpos / tpos: sizes are counts (non-negative); eligible: the probe succeeds, has samples, fits a shard. *)
+Theorem C03_clean_from_the_second_round : forall o tru w schs,
+  regime o -> winv o w -> NoDup (w_active w) -> (2 <= length schs)%nat ->
+  wclean (fold_left (calm_round_with o tru) schs w).
+Proof. exact clean_from_the_second_round. Qed.
+Print Assumptions C03_clean_from_the_second_round.
+
+Theorem C03_cycle_places_or_grows : forall o tru w sch h,
+  regime o -> 0 <= max_head o -> winv o w -> tpos tru -> wpos w ->
+  In h (w_active w) -> eligible o tru h ->
+  (forall k, afind h (status_at w k) = None) ->
+  Z.of_nat (length (w_shards w)) < max_shard o ->
+  held (model_cycle o tru w no_faults sch) h \/
+  (length (w_shards w) + 1 <= length (w_shards (model_cycle o tru w no_faults sch)))%nat.
+Proof. exact cycle_places_or_grows. Qed.
+Print Assumptions C03_cycle_places_or_grows.
+
+Theorem C03_sizes_stay_counts : forall o tru w sch,
+  regime o -> winv o w -> tpos tru -> wpos w -> wpos (calm_round_with o tru w sch).
+Proof. exact round_pos. Qed.
+Print Assumptions C03_sizes_stay_counts.
+
+Theorem C03_placed_or_at_cap : forall o tru h, regime o -> 0 <= max_head o -> tpos tru -> eligible o tru h ->
+  forall schs w, winv o w -> wpos w -> In h (w_active w) ->
+  (Z.to_nat (max_shard o - Z.of_nat (length (w_shards w))) < length schs)%nat ->
+  let w' := fold_left (calm_round_with o tru) schs w in
+  held w' h \/ Z.of_nat (length (w_shards w')) = max_shard o.
+Proof. exact placed_or_at_cap. Qed.
+Print Assumptions C03_placed_or_at_cap.
+
+Theorem C03_converges_in_regime : forall o tru schs w, regime o -> 0 <= max_head o -> tpos tru ->
+  winv o w -> wpos w -> NoDup (w_active w) ->
+  (2 <= length schs)%nat -> (Z.to_nat (max_shard o - Z.of_nat (length (w_shards w))) < length schs)%nat ->
+  let w' := fold_left (calm_round_with o tru) schs w in
+  wclean w' /\
+  forall h, In h (w_active w) -> eligible o tru h ->
+    Z.of_nat (length (w_shards w')) = max_shard o \/
+    exists k, (k < length (w_shards w'))%nat /\
+      (exists e, afind h (status_at w' k) = Some e /\ ss_state e = Normal) /\
+      forall j, j <> k -> (j < length (w_shards w'))%nat -> afind h (status_at w' j) = None.
+Proof. exact converges_in_regime. Qed.
+Print Assumptions C03_converges_in_regime.
+
+Theorem C03_clean_held_world_is_settled : forall o tru w, regime o -> winv o w -> min_shard o <= Z.of_nat (length (w_shards w)) ->
+  wclean w -> all_held_or_unplaceable o tru w -> settled o (cycle_input tru w no_faults).
+Proof. exact wclean_settled. Qed.
+Print Assumptions C03_clean_held_world_is_settled.
+
+Theorem C03_converged_stays : forall o tru, regime o -> forall schs w, winv o w -> min_shard o <= Z.of_nat (length (w_shards w)) ->
+  wclean w -> all_held_or_unplaceable o tru w -> same_placement w (fold_left (calm_round_with o tru) schs w).
+Proof. exact converged_stays. Qed.
+Print Assumptions C03_converged_stays.
+
+(* non-vacuity: the world of C03_example_converges (a pending transfer, two duplicates) meets every hypothesis under the
+   regime options, and five rounds with the default iteration order end as the theorem says *)
+Definition cv_opts : opts := {| max_head := 0; max_proc := 100; max_shard := 4; min_shard := 1; max_idle := 0; disable_alleviate := true |}.
+Definition cv_w0 : world := world_of_obs ex_truth [10%N; 11%N; 12%N] ex_obs.
+Ltac cv_nodup := repeat constructor; cbn; intuition discriminate.
+Ltac cv_wf := constructor; cbn;
+  [ cv_nodup | reflexivity
+  | intros t Ht; repeat (destruct Ht as [<-|Ht]; [cbn; eauto|]); destruct Ht
+  | split; intros H; [discriminate | exfalso; now apply H]
+  | cv_nodup ].
+Example C03_converges_example :
+  regime cv_opts /\ winv cv_opts cv_w0 /\ tpos ex_truth /\ wpos cv_w0 /\ NoDup (w_active cv_w0) /\
+  (forall h, In h (w_active cv_w0) -> eligible cv_opts ex_truth h) /\
+  (Z.to_nat (max_shard cv_opts - Z.of_nat (length (w_shards cv_w0))) < 5)%nat /\
+  map (fun s => map (fun kv => (fst kv, ss_state (snd kv))) (sc_status (ws_sc s)))
+      (w_shards (fold_left (calm_round_with cv_opts ex_truth) [[]; []; []; []; []] cv_w0)) =
+  [[(12%N, Normal)]; [(10%N, Normal)]; [(11%N, Normal)]].
+Proof.
+  split; [constructor; cbn; try reflexivity; lia|].
+  split. { constructor; [unfold wwf; cbn; repeat (constructor; [cv_wf|]); constructor | unfold wsynced; cbn; repeat constructor | cbn; lia]. }
+  split. { intros h. unfold truth_of, ex_truth. cbn. repeat (destruct (N.eqb h _); [cbn; lia|]). cbn. lia. }
+  split. { intros k h e. unfold status_at. destruct k as [|[|[|k]]]; cbn;
+           repeat (destruct (N.eqb h _); [intros H; injection H as <-; unfold spos; cbn; lia|]); try discriminate.
+           destruct k; cbn; discriminate. }
+  split; [cv_nodup|].
+  split. { intros h [<-|[<-|[<-|[]]]]; (split; [reflexivity|split; [reflexivity|left; cbn; lia]]). }
+  split; [cbn; lia|vm_compute; reflexivity].
 Qed.
